@@ -32,7 +32,9 @@ EpInit == [n |-> 1, live |-> TRUE,
            since |-> [c \in TsAll |-> IF c = "hls" THEN 0 ELSE -1],   \* -1 absent, 0 attached when the epoch began / before its
                                                                      \* first message, s > 0 joined after s messages
            rg |-> -1,              \* the same for the RTSP subscriber
-           stay |-> FALSE]         \* the RTSP subscriber rh was described by an earlier publisher and stayed attached
+           stay |-> FALSE,         \* the RTSP subscriber rh was described by an earlier publisher and stayed attached
+           played |-> FALSE,       \* rh has sent PLAY
+           lateplay |-> FALSE]     \* ... and it sent it in this epoch although an earlier publisher had described it
 
 Max(a, b) == IF a > b THEN a ELSE b
 RECURSIVE MaxV(_, _, _)
@@ -45,7 +47,7 @@ EpPub(e, m) == CASE m.k = "vsh" -> [e EXCEPT !.vmax = Max(@, m.ver)]
 EpJoin(e, h, c) == LET s == IF e.live THEN h.step ELSE 0
                    IN IF c = "rg" THEN [e EXCEPT !.rg = s] ELSE [e EXCEPT !.since[c] = s]
 EpLeave(e) == [e EXCEPT !.live = FALSE, !.vbase = e.vmax, !.rg = -1]
-EpArrive(e) == [e EXCEPT !.n = @ + 1, !.live = TRUE, !.ascs = {},
+EpArrive(e) == [e EXCEPT !.n = @ + 1, !.live = TRUE, !.ascs = {}, !.lateplay = FALSE,
                          !.since = [c \in TsAll |-> IF c = "hls" \/ e.since[c] >= 0 THEN 0 ELSE -1]]
 
 ---------------------------------------------------------------------------
@@ -74,7 +76,12 @@ EpSdps(h, e, r, ss, i) == IF i > Len(ss) \/ ~r.ok THEN r ELSE EpSdps(h, e, EpRtp
 (* properties do not ask for the session to be ended.  What C16 does demand of it is that nothing of   *)
 (* the predecessor reaches it: every frame it is handed is a frame of the present publisher, per track *)
 (* in order and complete from the first one on.  Session description, RTP clock and a key-frame start  *)
-(* are not demanded (unspecified).                                                                     *)
+(* are not demanded (unspecified) - with one exception: a session that sends its PLAY under the later  *)
+(* publisher has not started yet, and like every consumer that starts it starts at a key frame when    *)
+(* the stream has video (LatePlayStart, C02).                                                          *)
+LatePlayStart(h, r, gs) ==
+  LET vs == SelectSeq(gs, LAMBDA g : g.tr = "v")
+  IN (r.vcur = 0 /\ vs # <<>>) => LET j == FindVR(h, vs[1]) IN j > 0 /\ VRKey(h.pubVR[j])
 AcceptStayFrame(h, r, g) ==
   IF ~(g.wf /\ g.seqOk /\ g.mk /\ Len(g.units) >= 1) THEN [r EXCEPT !.ok = FALSE]
   ELSE IF g.tr = "v" THEN
